@@ -16,6 +16,31 @@ import numpy as np
 
 SCRIPT = None
 CALLS = []
+# Jacobian audit (harness, C14 / C10): when set to a dict {"every": k, "n": 0, "checked": 0, "fails": []} the implicit stepper asks for
+# the Jacobian at the START of every raw step, at (t, y) -- a time at which it has not just evaluated the derivative, as GSL's bsimp does --
+# and every k-th such Jacobian is compared with central differences of the derivative function at the same (t, y)
+AUDIT = None
+
+
+def _audit(stepper, t, y):
+    a = AUDIT
+    J, _ = stepper.jac(t, y, None)
+    a["n"] += 1
+    if a["n"] % a["every"] != 0 or len(a["fails"]) >= 3:
+        return
+    J = np.asarray(J, dtype=float).copy()
+    n = len(y)
+    fd = np.zeros((n, n))
+    for j in range(n):
+        hh = 1e-6 * max(1.0, abs(y[j]))
+        e = np.zeros(n)
+        e[j] = hh
+        fd[:, j] = (np.asarray(stepper.func(t, y + e, None), dtype=float) - np.asarray(stepper.func(t, y - e, None), dtype=float)) / (2 * hh)
+    a["checked"] += 1
+    dev = np.abs(J - fd) / np.maximum(1.0, np.maximum(np.abs(J), np.abs(fd)))
+    if np.max(dev) > 1e-4:
+        i, j = np.unravel_index(np.argmax(dev), dev.shape)
+        a["fails"].append({"t": float(t), "y": [float(v) for v in y], "row": int(i), "col": int(j), "jacobian": float(J[i, j]), "finite_difference": float(fd[i, j])})
 
 
 class _Stepper:
@@ -38,6 +63,8 @@ class _Stepper:
             k4 = f(t + h, y + h * k3)
             return y + h / 6 * (k1 + 2 * k2 + 2 * k3 + k4)
         # implicit midpoint: y1 = y + h f(t+h/2, (y+y1)/2); Newton on g(y1) = y1 - y - h f(...)
+        if AUDIT is not None and self.jac is not None:
+            _audit(self, t, np.asarray(y, dtype=float))
         y1 = y + h * f(t, y)
         for _ in range(12):
             ym = (y + y1) / 2
